@@ -7,10 +7,10 @@ MANIFEST = dict(
          "coefficient table layout (one row per interval, left knot, ordinate = the spline passes through the knots) and all variable-length-"
          "array indices in bounds for 3..5 points.",
     note="Bounded number of pieces/points. C2 continuity, natural end conditions, exact reproduction of straight lines, trapezoid additivity and the "
-         "simplex minimiser's convergence are numerical and not decided; simplex comparison logic not yet under contract.",
+         "simplex minimiser's convergence are numerical and not decided; the simplex's reported-value / no-worse-than-start clauses are decided for dimension 1 and <= 1 iteration (2 in the thorough tier) with an arbitrary deterministic objective.",
     technique="CBMC on the real spline bodies with a precondition-selected coefficient instance (piece j = constant j); bounded pieces")
 
-META = dict(decided="piece lookup independent of knot spacing/scale; table layout; index safety of the tridiagonal solve arrays",
+META = dict(decided="piece lookup independent of knot spacing/scale; table layout; index safety of the tridiagonal solve arrays; simplex: reported value = f(returned point), never worse than the best initial vertex (dimension 1)",
             not_decided="C2 continuity, end conditions, line reproduction, unit independence of coefficients, trapezoid area, simplex convergence",
             trusted_base=[], assumptions=["knots within +-1e4, spacing >= 1e-4 (the property's range)"])
 
@@ -28,4 +28,9 @@ def jobs(tier):
         J.append(Job("table_layout@n=%d" % n, "C19/spline.c", entry="h_table_layout", srcs=S, kind="bounded", defines={"VC_NPTS": n}, unwind=max(n, 5) + 3, cbmc_flags=["--slice-formula"],
                      functions=["cubic_spline_interpolation"], timeout=900, bound="%d points, abscissae/ordinates symbolic" % n,
                      clause="coefficient table layout; spline passes through the knots; VLA indices in bounds"))
+    for it in ((0, 1) if tier == "quick" else (0, 1, 2)):   # 2 iterations take ~7 min
+        J.append(Job("simplex_value@iter=%d" % it, "C19/simplex.c", entry="h_simplex_value", srcs=["matrix.c", "vector.c", "memwrapper.c", "numeric.c"], kind="bounded",
+                     defines={"VC_ITER": it}, unwind=max(it + 3, 26), functions=["NelderMeadSimplex"], timeout=900, object_bits=10,
+                     bound="dimension 1, %d iteration(s), objective an arbitrary deterministic function (oracle with memo table)" % it,
+                     clause="simplex: reported value = objective at the returned point; never worse than the best initial vertex"))
     return J
